@@ -85,6 +85,17 @@ func (e *Exec) envFor(rets []Term) *exprEnv {
 	for i, r := range rets {
 		env.result = append(env.result, typedTerm{t: r, typ: sig.Results().At(i).Type()})
 	}
+	if len(e.outputs) > 0 {
+		// what the activation wrote to its io.Writer: `nprinted` write calls, `printed` the text of the (first) one
+		cnt := "0"
+		text := e.g.lit("")
+		for i := len(e.outputs) - 1; i >= 0; i-- {
+			o := e.outputs[i]
+			cnt = "(+ " + cnt + " (ite " + o.reach + " 1 0))"
+			text = ite(o.reach, o.text, text)
+		}
+		env.extra = map[string]typedTerm{"nprinted": {t: cnt, typ: tInt}, "printed": {t: text, typ: tStr}}
+	}
 	return env
 }
 
